@@ -57,11 +57,21 @@ def slice_(
 
     pipeline: list[Any] = []
 
-    if _stop >= 0:
+    # A start counted from the end combined with a stop counted from the
+    # front: the tail must be cut from the whole sequence, not from the
+    # first `stop` elements.
+    tail_then_head = stop is not None and _start < 0 < _stop
+
+    if _stop >= 0 and not tail_then_head:
         pipeline.append(ops.take(_stop))
 
     if _start > 0:
         pipeline.append(ops.skip(_start))
+    elif tail_then_head:
+        pipeline.append(ops.map_indexed(lambda x, i: (i, x)))
+        pipeline.append(ops.take_last(-_start))
+        pipeline.append(ops.take_while(lambda ix: ix[0] < _stop))
+        pipeline.append(ops.map(lambda ix: ix[1]))
     elif _start < 0:
         pipeline.append(ops.take_last(-_start))
 
